@@ -252,7 +252,7 @@ func runC34(c *Ctx) {
 	phiEdges := func(fn *ssa.Function, name string) []string {
 		var out []string
 		Instrs(fn, func(in ssa.Instruction) {
-			if p, ok := in.(*ssa.Phi); ok && p.Comment == name {
+			if p, ok := in.(*ssa.Phi); ok && u.VarName(p) == name {
 				for _, e := range p.Edges {
 					if e == ssa.Value(p) {
 						continue
@@ -809,8 +809,18 @@ func isLoopIndex(v ssa.Value) bool {
 			return true
 		}
 	}
-	if p, ok := v.(*ssa.Phi); ok && (p.Comment == "i" || p.Comment == "rangeindex") {
-		return true
+	// an explicit `for i := 0; …; i++` counter: a phi one of whose edges is itself plus a constant
+	if p, ok := v.(*ssa.Phi); ok {
+		if p.Comment == "rangeindex" {
+			return true
+		}
+		for _, e := range p.Edges {
+			if b, isB := e.(*ssa.BinOp); isB && b.Op == token.ADD && b.X == ssa.Value(p) {
+				if _, isK := ConstInt(b.Y); isK {
+					return true
+				}
+			}
+		}
 	}
 	return false
 }
